@@ -31,14 +31,23 @@ void run (string key) {
   }
 }
 
-void fired (int f, mixed tag) {
+// `coa`/`coafp` call_outs (tags "A...") carry three more arguments that are a function of the tag: a string, an
+// object (o2; 0 once it is destructed) and a number.  The callback checks number, order and values of what it
+// receives and prints a line only when they are wrong (any such line is an `unexpected-line` verdict of the oracle).
+object peer () { return "/vreg"->get ("o2"); }
+void fired (int f, mixed tag, mixed a, mixed b, mixed c) {
   VL (VNOW + " fire " + oid + " " + f + " " + tag + " " + tp ());
+  if (stringp (tag) && strlen (tag) && tag[0] == 'A') {
+    if (!stringp (a) || a != "x" + tag || b != peer () || !intp (c) || c != 42 + strlen (tag))
+      VL ("argmismatch " + oid + " " + tag);
+  } else if (a || b || c)
+    VL ("argmismatch " + oid + " " + tag);
   run ("co:" + tag);
 }
-void co0 (mixed tag) { fired (0, tag); }
-void co1 (mixed tag) { fired (1, tag); }
-void co2 (mixed tag) { fired (2, tag); }
-void co3 (mixed tag) { fired (3, tag); }
+void co0 (mixed tag, mixed a, mixed b, mixed c) { fired (0, tag, a, b, c); }
+void co1 (mixed tag, mixed a, mixed b, mixed c) { fired (1, tag, a, b, c); }
+void co2 (mixed tag, mixed a, mixed b, mixed c) { fired (2, tag, a, b, c); }
+void co3 (mixed tag, mixed a, mixed b, mixed c) { fired (3, tag, a, b, c); }
 
 int cmp_info (mixed *a, mixed *b) {
   if (a[0] != b[0]) return a[0] < b[0] ? -1 : 1;
@@ -59,6 +68,18 @@ mixed do_op (string s) {
   case "cofp": { // cofp <f> <delay> <tag>: function-pointer call_out (cop->ob == 0 in call_out.c)
     function *fps = ({ (: co0 :), (: co1 :), (: co2 :), (: co3 :) });
     r = call_out (fps[to_int (w[1])], parse_int (w[2]), w[3]);
+    handles[w[3]] = r;
+    VL (VNOW + " r cofp " + oid + " " + w[1] + " " + w[2] + " " + w[3] + " " + r + " " + tp ());
+    break;
+  }
+  case "coa":  // coa <f> <delay> <tag>: the same with three more arguments (see fired ())
+    r = call_out ("co" + w[1], parse_int (w[2]), w[3], "x" + w[3], peer (), 42 + strlen (w[3]));
+    handles[w[3]] = r;
+    VL (VNOW + " r co " + oid + " " + w[1] + " " + w[2] + " " + w[3] + " " + r + " " + tp ());
+    break;
+  case "coafp": {
+    function *fps = ({ (: co0 :), (: co1 :), (: co2 :), (: co3 :) });
+    r = call_out (fps[to_int (w[1])], parse_int (w[2]), w[3], "x" + w[3], peer (), 42 + strlen (w[3]));
     handles[w[3]] = r;
     VL (VNOW + " r cofp " + oid + " " + w[1] + " " + w[2] + " " + w[3] + " " + r + " " + tp ());
     break;
